@@ -125,6 +125,10 @@ def main(prop, tier):
             CC.probe_surrogate_echo(on_fail, stats)
         if prop in ("C10", "C18"):
             CC.probe_leave_unwritable_store(on_fail, stats)
+        if prop == "C18":
+            CC.probe_same_peer_slots(on_fail, stats)
+        if prop in ("C01", "C09"):
+            CC.probe_marker_in_values(on_fail, stats)
     if info.get("build_ok") and info.get("tables") and tier != "quick":
         # thorough: 12 worker processes, each with its own driver and PRNG stream
         from concurrent.futures import ProcessPoolExecutor
